@@ -22,8 +22,8 @@ def run(prop, tier):
     depth = (4 if tier == "quick" else 5) if kind == "sem" else (4 if tier == "quick" else 5)
     ns = 12
     hjobs = [[kind, depth, k, ns] for k in range(ns)] + [[kind + "crash", 0, k, 2] for k in range(2)]
-    # the same BFS one level shallower with names of 300 and of 1000 characters that differ in the last character only (the name is hashed: no length is special)
-    hjobs += [["%s@%d" % (kind, ln), depth - 1, k, 2] for ln in (300, 1000) for k in range(2)]
+    # the same BFS one level shallower with names of 307 (decorated: exactly five 64-byte hash blocks) and of 1000 characters that differ in the last character only (the name is hashed: no length is special)
+    hjobs += [["%s@%d" % (kind, ln), depth - 1, k, 2] for ln in (307, 1000) for k in range(2)]
     common.parallel(lambda j: common.run_harness(x, j, acc, "ipc_hist " + " ".join(map(str, j)), timeout=7000, crash_prop=prop), hjobs)
     p = 2 if tier == "quick" else 3
     if prop == "C06":
@@ -41,7 +41,7 @@ def run(prop, tier):
                traces_validated_against_impl=s.get("histories", 0) + s.get("sched_executions", 0),
                evaluations=s.get("histories", 0) + s.get("sched_executions", 0), distinct_nontrivial=s.get("nontrivial", 0) + s.get("sched_nontrivial_executions", 0),
                crash_points=s.get("crash_points", 0), histories=s.get("histories", 0), concurrent_executions=s.get("sched_executions", 0),
-               rule="(a) BFS over histories of new/acquire|lock/release|unlock/write/read/take_ownership/free on 2 names (about 80 characters long, equal except for the last character; one level shallower also 300 and 1000 characters long) x 3 handle slots spread over 2 forked processes, up to depth %d, deduplicated on the "
+               rule="(a) BFS over histories of new/acquire|lock/release|unlock/write/read/take_ownership/free on 2 names (115 characters long, equal except for the last character; one level shallower also 307 and 1000 characters long) x 3 handle slots spread over 2 forked processes, up to depth %d, deduplicated on the "
                     "canonical reference-model state; every history runs from scratch on the real kernel objects and is compared step by step (blocking is reported by the worker's sem_wait wrapper, "
                     "not inferred from timing), final drain of the counters and name-space check; (b) all interleavings with <= %d preemptions at every IPC system call of 2-3 concurrent users; "
                     "(c) SIGKILL before and after every IPC system call of victim scripts followed by the documented recovery in a fresh process. non-trivial = blocked calls observed + crash points "
